@@ -31,7 +31,7 @@ CLAIMS = {
             'code-write protocol (RF4d), label-operand position agreement between duplicator, simplifier and interpreter (RF7g), '
             'interface switch protocol: single writer of the public address and thunk redirection on every setter path (RF31), '
             'indirect-jump CFG edges (RF33), origin of addresses stored into lref data (RF42), address-taken labels (RF52/RF53), API view of a callee at link time (RF56), '
-            'direct-call offset range test (RF64), direct-call patching needs machine code (RF77), interpreter label unit (RF89), dynamic stack alignment of the call wrapper (RF11a), positional pairing of label references and successor versions only under equal counts (RF104), interpreter shim block fetch vs psABI (RF111), one stable address per label under lazy bb generation (RF124), code address never used as the address value of a function (RF132), protect window covers the bytes written (RF4), shim block copies in the activation (RF147), loaded temp data addressed through item->addr by both engines (RF151), bb version generation never edits the shared instruction list (RF165), bb stubs only for a function whose generator state was just built (RF177), size of register-passed blocks in the FFI cache key (RF182)',
+            'direct-call offset range test (RF64), direct-call patching needs machine code (RF77), interpreter label unit (RF89), dynamic stack alignment of the call wrapper (RF11a), positional pairing of label references and successor versions only under equal counts (RF104), interpreter shim block fetch vs psABI (RF111), one stable address per label under lazy bb generation (RF124), code address never used as the address value of a function (RF132), protect window covers the bytes written (RF4), shim block copies in the activation (RF147), loaded temp data addressed through item->addr by both engines (RF151), bb version generation never edits the shared instruction list (RF165), bb stubs only for a function whose generator state was just built (RF177), size of register-passed blocks in the FFI cache key (RF182), FFI register counters advance only with a register (RF187), interpreter frame covers every register of the code (RF193)',
             'Decides narrow structural necessary conditions of interface independence: the glue that switches a function from stub to '
             'generated code preserves every argument register and the stack, both thunk patterns have one size so retargeting never '
             'overwrites a neighbour, redirection writes go through the protected code-write path, label targets are rewired at the '
@@ -42,7 +42,7 @@ CLAIMS = {
             'RF28 alloca consolidation by path-wise linear forms, RF29 simplified memory operands, RF16j label forwarding-pointer scrub, RF38/41/48 '
             'folding and reversal tables, RF45 fresh merge registers, RF46 top alloca precedes calls, RF50 fresh inline registers, RF51 alignment inside the consolidated alloca area, '
             'RF56 inliner reads the API view of the callee, RF71 scans that run off the list, RF72 jump over code after a replaced ret, RF73 block argument copies released, '
-            'RF83 result extension in front of the common ret, RF90 merged alloca runs once, RF91 own register of the merged alloca, RF98 insertions inside the call bracket, RF100 address arithmetic never follows an overflow producer, RF113 link-time passes are not re-entered, RF48b no opcode map negates an ordered FP relation, RF46 incl. branches, RF142 single-register address shortcut of simplify_op, operand writes of the inliner are a frozen table (RF153), value-number table emptied by every per-function driver (RF161), FP constants looked up by bits (RF180), alloca after ret (RF46)',
+            'RF83 result extension in front of the common ret, RF90 merged alloca runs once, RF91 own register of the merged alloca, RF98 insertions inside the call bracket, RF100 address arithmetic never follows an overflow producer, RF113 link-time passes are not re-entered, RF48b no opcode map negates an ordered FP relation, RF46 incl. branches, RF142 single-register address shortcut of simplify_op, operand writes of the inliner are a frozen table (RF153), value-number table emptied by every per-function driver (RF161), FP constants looked up by bits (RF180), alloca after ret (RF46), own register of the merged top alloca (RF190)',
             'Decides that the link-time shortcut set is disjoint from overflow-flag producers, that result/argument extension maps agree '
             'with the target\'s, that label bookkeeping covers every label-carrying opcode, that the inliner\'s consolidated alloca size '
             'covers every offset it hands out, that memory operands it builds are base-only, and that label forwarding pointers used '
@@ -52,7 +52,7 @@ CLAIMS = {
             'stack-slot alignment (RF10e), trampoline cache-key completeness and separation (RF12/RF12b), frame pointer kept around an sp bracket (RF126), register fit of one-class blocks (RF133), result extension index (RF144), container growth not skipped '
             '(RF3b), %al count (RF10h), block stack placement (RF10i), result extension after the result move (RF10j), prologue frame residues mod 16 (RF65), '
             'per-call trampoline buffer (RF47), narrowing maps (RF7f), extension map (RF7e), result moves anchored at the call (RF84), zero-size block copy template (RF74), '
-            'sp-dependent instructions not moved by the combiner (RF32), call liveness of by-value blocks (RF97), extension folding table also here (RF23), al set in front of a variadic native call (RF174), call clobbers killed before implicit argument registers become live (RF178), size in the FFI cache key (RF182)',
+            'sp-dependent instructions not moved by the combiner (RF32), call liveness of by-value blocks (RF97), extension folding table also here (RF23), al set in front of a variadic native call (RF174), call clobbers killed before implicit argument registers become live (RF178), size in the FFI cache key (RF182), FFI register counters (RF187)',
             'Decides that every copy of the SysV argument/return register tables and counts in the FFI trampoline generator, the code '
             'generator and c2mir agree with the psABI and with each other; that block classes map to the register classes the psABI '
             'gives them; that register counters advance exactly for arguments passed in registers; that long double stack slots are '
@@ -60,17 +60,17 @@ CLAIMS = {
             '3 C05'),
     'C06': ('ABI constant agreement for the callee side (RF10/RF10b/RF10e): callee-saved set, vararg save-area layout, incoming long '
             'double slot alignment; VA_START and shim block tables (RF10f/g); save/restore symmetry of the machine-code templates (RF11); '
-            'single-return invariant (RF30); x86 pattern table incl. emission-time rewrites (RF9); prologue frame residues mod 16 by dataflow (RF65); spill-slot reuse inside the allocated slots (RF43), interpreter shim block fetch vs psABI (RF111), nothing saved below sp (RF127), register fit of one-class blocks (RF133), shim block copies in the activation (RF147), extension folding table (RF23), register-passed block storage covers whole eightbytes (RF155), no extension of an incoming parameter dropped (RF166), frame pointer kept around every sp adjustment (RF126)',
+            'single-return invariant (RF30); x86 pattern table incl. emission-time rewrites (RF9); prologue frame residues mod 16 by dataflow (RF65); spill-slot reuse inside the allocated slots (RF43), interpreter shim block fetch vs psABI (RF111), nothing saved below sp (RF127), register fit of one-class blocks (RF133), shim block copies in the activation (RF147), extension folding table (RF23), register-passed block storage covers whole eightbytes (RF155), no extension of an incoming parameter dropped (RF166), frame pointer kept around every sp adjustment (RF126), integer results in rax, rdx (RF186)',
             'Decides table/constant agreement with the psABI, template symmetry, and that no pass can create a second return that the '
             'single epilogue would miss; does not decide register allocation.', '3 C06'),
     'C10': ('tagged-union discipline in the text writer (RF6), writer/scanner vocabulary agreement (RF7c), scanner input function '
-            '(RF22, RF22b), label-table scope (RF15), FP print precision and lossy FP-to-integer printing (RF37), trailing labels (RF7k), every string byte printed (RF80), reserved-name bookkeeping in the scanner (RF85), fixed-length string escapes (RF103), alias suffix writer/scanner agreement by abstract execution (RF106), per-statement scanner state (RF116), spelling of non-finite FP values (RF118, known finding), octal escape length in the scanner (RF143), integer tokens converted unsigned (RF159), lref text for every shape (RF172)',
+            '(RF22, RF22b), label-table scope (RF15), FP print precision and lossy FP-to-integer printing (RF37), trailing labels (RF7k), every string byte printed (RF80), reserved-name bookkeeping in the scanner (RF85), fixed-length string escapes (RF103), alias suffix writer/scanner agreement by abstract execution (RF106), per-statement scanner state (RF116), spelling of non-finite FP values (RF118, known finding), octal escape length in the scanner (RF143), integer tokens converted unsigned (RF159), lref text for every shape (RF172), hard register of a declared variable by name (RF192)',
             'Decides that the textual writer reads only the active union member on every path and terminates each item kind, and that '
             'every keyword, type name, data element type the writer can print is accepted by the scanner. Numeric round trip of values '
             'is not decided.', '3 C10'),
     'C11': ('binary writer/reader vocabulary agreement (RF7d), label provenance (RF15), padding of type-punned temporaries (RF14), '
             'tagged-union discipline (RF6), byte callbacks as the only sink/source (RF7j), encoder counter discipline (RF13c), token payload read once (RF75), '
-            'memory operand fields by abstract execution of writer and reader (RF82), shared header reader (RF96), compression layer verdict (RF88), reserved-name bookkeeping in the reader (RF85b), opcode acceptance agreement of writer and reader (RF115), label counter kept ahead of explicit label numbers (RF121), scalar operand mode survives the binary form (RF129), label table of the reader is an injective function, by abstract execution (RF176)',
+            'memory operand fields by abstract execution of writer and reader (RF82), shared header reader (RF96), compression layer verdict (RF88), reserved-name bookkeeping in the reader (RF85b), opcode acceptance agreement of writer and reader (RF115), label counter kept ahead of explicit label numbers (RF121), scalar operand mode survives the binary form (RF129), label table of the reader is an injective function, by abstract execution (RF176), no FP conversion of values in the reader/writer (RF191)',
             'Decides vocabulary agreement between write_* and read_*, that lref labels come from the reader\'s label table, and that no '
             'indeterminate byte reaches the output stream. Value encodings are not decided.', '3 C11'),
     'C12': ('bounded-write guard coverage in the decoder (RF13, including copy helpers and the written-prefix clause for back references), no wrap of the 32-bit '
@@ -85,7 +85,7 @@ CLAIMS = {
             'is bound on every non-error path from the module item table; the redefinition error is guarded by exactly the reference '
             'guard set; table probes use interned names. History semantics are not decided.', '3 C13'),
     'C14': ('size-pass/placement-pass agreement and initialisation obligation in load_bss_data_section (RF16f), provenance of '
-            'resolved addresses in MIR_link (RF16d), store-width agreement (RF7f), contiguity clause (RF16f), lref detection over all items (RF53), lref list rebuilt on reload (RF76), section published at its head (RF79), interpreter label unit (RF89), placement pass leaves lref cells alone (RF16f lref clause), expr data store width (RF128), ref cells hold the public address (RF132), section addresses come from the section allocation only (RF16m), loaded temp data (RF151), counted strings never measured as C strings (RF162), writes of load_bss_data_section sized by the placed item (RF171)',
+            'resolved addresses in MIR_link (RF16d), store-width agreement (RF7f), contiguity clause (RF16f), lref detection over all items (RF53), lref list rebuilt on reload (RF76), section published at its head (RF79), interpreter label unit (RF89), placement pass leaves lref cells alone (RF16f lref clause), expr data store width (RF128), ref cells hold the public address (RF132), section addresses come from the section allocation only (RF16m), loaded temp data (RF151), counted strings never measured as C strings (RF162), writes of load_bss_data_section sized by the placed item (RF171), a second load looks at every item (RF188)',
             'Decides that both passes use the same kind predicates and per-kind size expressions, that bss is zeroed on every load, and '
             'that forward/export addresses come from the definition found in the module item table. Byte contents are not decided.',
             '3 C14'),
@@ -97,11 +97,11 @@ CLAIMS = {
     'C16': ('duplicate/restore protocol on every generation path (RF16a/b/i), scratch use of insn data scrubbed (RF16j), no instruction write '
             'before the working copy exists (RF16k), label-operand '
             'positions (RF7g), lref cell written by one engine (RF42b, known finding), API view of a callee (RF56), generator stores only engine-private '
-            'descriptor fields (RF66), direct-call patching needs machine code (RF77), generator state that outlives a function is reset on every path (RF107), growth loops of parallel vectors (RF120), thunk re-targeted by every interface setter (RF31b), code address never stands for the function (RF132), generator frees only its own item data (RF163), lref cells survive a re-load (RF16f, RF171)',
+            'descriptor fields (RF66), direct-call patching needs machine code (RF77), generator state that outlives a function is reset on every path (RF107), growth loops of parallel vectors (RF120), thunk re-targeted by every interface setter (RF31b), code address never stands for the function (RF132), generator frees only its own item data (RF163), lref cells survive a re-load (RF16f, RF171), wrapper templates preserve the argument registers (RF11)',
             'Decides the must-pass-through protocol of generate_func_code, sibling agreement of saved/restored fields, and that every '
             'forwarding pointer parked in the original labels while instructions are copied is reset on every path.', '3 C16'),
     'C17': ('who-may-call allocator confinement (RF1), init/finish create-destroy pairing (RF2/RF27), single owner of item data (RF2b), realloc old-size contract (RF3), '
-            'code-memory write protocol (RF4), ownership of locally created containers and objects on every path (RF78, RF78b), region allocator of c2mir released only at session end (RF109), interpreter data released on every branch of MIR_link (RF122), owning slots of the generator context (RF130), no use of a bb_insn behind the deletion of its instruction (RF137), every variable vector re-interned on a context change (RF152), macro call under construction not on the stack (RF164), generator frees only its own item data (RF163), bb version generation never frees shared instructions (RF165), one releaser for a redundant declaration item (RF181), interpreter data released before the inline flag (RF185)',
+            'code-memory write protocol (RF4), ownership of locally created containers and objects on every path (RF78, RF78b), region allocator of c2mir released only at session end (RF109), interpreter data released on every branch of MIR_link (RF122), owning slots of the generator context (RF130), no use of a bb_insn behind the deletion of its instruction (RF137), every variable vector re-interned on a context change (RF152), macro call under construction not on the stack (RF164), generator frees only its own item data (RF163), bb version generation never frees shared instructions (RF165), one releaser for a redundant declaration item (RF181), interpreter data released before the inline flag (RF185), environment item freed or listed on every path (RF189)',
             'Decides for every function of the three library units that no C-library allocator is referenced outside the default '
             'callbacks, that every MIR_realloc passes the container\'s true previous capacity, that every container created at init is '
             'destroyed at finish, and that code memory is written only between protect(write) and protect(exec). Heap ownership that '
